@@ -35,10 +35,10 @@ func init() {
 				Blocks:   16,
 				Procs:    16,
 				Rule: "case = (Left, Right, n, file info). Lines come from an adversarial alphabet ('', lines starting with - + < > @ space \\\\, '---', '+++', 'diff ', '***', '***************', change-command and hunk-header look-alikes, lines ending in CR, non-ASCII); n in 0..4; empty files, single-line and empty sides. Exhaustive over alphabet 2 x length <= 5 x n in 0..3; random pairs up to 40 lines. " +
-					"For New and for New.AddContext(n).Unify(): Normal/Unified/Context text is produced; the text is parsed by independent reference parsers that count lines by the headers (published format rules) and must describe the original changes at the original ranges; strict reference appliers (no fuzz, no offset, left AND right line numbers checked) must turn Left into Right; mdiff.Read/ReadUnified/ReadGitPatch must return the reference parse (chunk for chunk; one chunk per change command for normal), re-format to identical bytes, and preserve file names and default-format timestamps. " +
+					"For New and for New.AddContext(n).Unify(): Normal/Unified/Context text is produced; the text is parsed by independent reference parsers that count lines by the headers (published format rules) and must describe the original changes at the original ranges; strict reference appliers (no fuzz, no offset, left AND right line numbers checked) must turn Left into Right; mdiff.Read/ReadUnified/ReadGitPatch must return the reference parse (chunk for chunk; one chunk per change command for normal), re-format to identical bytes, and preserve file names and default-format timestamps; parsed patches are kept and verified again after later reads; Diff.Format must equal the format function's output also right after a Format call into a writer that failed. " +
 					"A sample of cases (CR-free alphabet) is also applied with GNU patch (-n/-u/-c) and, for a smaller sample, GNU diff output (normal and -U n) is fed to the readers. " +
 					"A unified read failure is attributed to known finding F5 iff the text has an omitted count and the parse equals the reference parse with End=Start on exactly the omitted-count sides. distinct = hash(Left, Right, n); non-trivial = the diff has a hunk with an empty or single-line side",
-				Required:     []string{"cases", "unified_roundtrips", "normal_roundtrips", "git_roundtrips", "ref_apply_normal", "ref_apply_unified", "ref_apply_context", "empty_range_hunks", "single_line_side_hunks", "fileinfo_roundtrips", "gnu_patch_runs", "gnu_diff_runs"},
+				Required:     []string{"cases", "unified_roundtrips", "normal_roundtrips", "git_roundtrips", "ref_apply_normal", "ref_apply_unified", "ref_apply_context", "empty_range_hunks", "single_line_side_hunks", "fileinfo_roundtrips", "gnu_patch_runs", "gnu_diff_runs", "kept_patches_rechecked", "format_after_failed_write"},
 				Exhaustive:   true,
 				Assumptions:  []string{"reference parsers/appliers written from the GNU diffutils manual's format descriptions", "GNU patch 2.7.x and GNU diff 3.x as installed in this image", "an omitted count means 1 (unified), an empty unified range s,0 sits after line s"},
 				CoverPkgs:    []string{"github.com/creachadair/mds/mdiff"},
@@ -52,6 +52,8 @@ func init() {
 var c14alphabet = []string{
 	"a", "b", "c", "", "x y", " lead", "-dash", "+plus", "<lt", ">gt", "< lt2", "> gt2", "@at", "@@ -1 +1 @@", "--- x", "+++ y", "---", "diff x",
 	"*** s", "***************", "*** 1,2 ****", "--- 1 ----", "1a2", "2,3c4", "5d4", "\\ back", "\ttab", "ü", "cr\r", "\r", "- ", "+ ", "! bang", "  two",
+	// pairs of different lines that collide under common 32-bit hashes (CRC-32, FNV-1, FNV-1a, Java hashCode)
+	"plumless", "buckeroo", "costarring", "liquid", "declinate", "macallums", "Aa", "BB",
 }
 
 // index of the first alphabet entry that GNU patch cases must avoid (CR handling in patch is heuristic)
@@ -526,6 +528,58 @@ func perCommand(cs []*mdiff.Chunk) []*mdiff.Chunk {
 // ---------------------------------------------------------------------------
 // the monitor
 
+// c14keptPatch remembers a parsed patch and what it must contain, so that it can
+// be verified again after later reads (a returned Patch must not change).
+type c14keptPatch struct {
+	p    *mdiff.Patch
+	want []*mdiff.Chunk
+	text string
+	fmtf string
+}
+
+var c14kept []c14keptPatch
+
+func c14recheckKept(c *fw.Ctx) {
+	for _, k := range c14kept {
+		c.Add("kept_patches_rechecked", 1)
+		if !equalChunks(k.p.Chunks, k.want) {
+			c.Fail(map[string]any{"format": k.fmtf, "text": fw.Q(k.text)}, "a Patch returned earlier by the %s reader has changed after later reads: now %s, was %s", k.fmtf, chunksString(k.p.Chunks), chunksString(k.want))
+			break
+		}
+	}
+	c14kept = c14kept[:0]
+}
+
+func c14keep(c *fw.Ctx, p *mdiff.Patch, fmtf, text string) {
+	if len(p.Chunks) == 0 {
+		return
+	}
+	// deep copy of what was returned
+	want := make([]*mdiff.Chunk, len(p.Chunks))
+	for i, ch := range p.Chunks {
+		cp := *ch
+		cp.Edits = cloneEdits(ch.Edits)
+		want[i] = &cp
+	}
+	c14kept = append(c14kept, c14keptPatch{p, want, text, fmtf})
+	if len(c14kept) >= 40 {
+		c14recheckKept(c)
+	}
+}
+
+// failAfter is a writer that accepts n bytes and then fails (a full disk, a closed pipe).
+type failAfter struct{ n int }
+
+func (f *failAfter) Write(p []byte) (int, error) {
+	if len(p) <= f.n {
+		f.n -= len(p)
+		return len(p), nil
+	}
+	k := f.n
+	f.n = 0
+	return k, fmt.Errorf("write failed")
+}
+
 type c14case struct {
 	c     *fw.Ctx
 	left  []string
@@ -611,6 +665,7 @@ func (k *c14case) checkUnified(cs []*mdiff.Chunk, fi *mdiff.FileInfo) (text stri
 		k.fail("ReadUnified fails on Unified's own output: %v", err)
 		return text
 	}
+	c14keep(k.c, p, "unified", text)
 	switch cl := classifyUnifiedRead(p.Chunks, hunks); cl {
 	case "ok":
 		var b2 bytes.Buffer
@@ -692,6 +747,7 @@ func (k *c14case) checkNormal(cs []*mdiff.Chunk) (text string) {
 		k.fail("Read returned %s, the text says %s", chunksString(p.Chunks), chunksString(want))
 		return text
 	}
+	c14keep(k.c, p, "normal", text)
 	var b2 bytes.Buffer
 	p.Format(&b2, mdiff.Normal)
 	if b2.String() != text {
@@ -774,6 +830,24 @@ func c14one(c *fw.Ctx, left, right []string, n int, fi *mdiff.FileInfo) (texts m
 			c.Step()
 			tag := fmt.Sprintf("%d", variant)
 			texts["u"+tag], texts["n"+tag], texts["c"+tag] = u, nm, cx
+			// Diff.Format must write exactly what the format function writes, also
+			// right after a Format call whose writer failed half way
+			if len(u) > 2 {
+				c.Add("format_after_failed_write", 1)
+				d.Format(&failAfter{n: len(u) / 2}, mdiff.Unified, fi)
+				d.Format(&failAfter{n: 1}, mdiff.Normal, nil)
+				for _, ff := range []struct {
+					name string
+					f    mdiff.FormatFunc
+					want string
+				}{{"Unified", mdiff.Unified, u}, {"Normal", mdiff.Normal, nm}, {"Context", mdiff.Context, cx}} {
+					var b bytes.Buffer
+					if err := d.Format(&b, ff.f, fi); err != nil || b.String() != ff.want {
+						k.fail("Diff.Format(%s) after a Format call whose writer failed wrote %q (err %v), the format function writes %q", ff.name, b.String(), err, ff.want)
+						break
+					}
+				}
+			}
 		}
 	})
 	if !ok {
@@ -1069,6 +1143,7 @@ func c14randomPair(r *rand.Rand, maxLen int, safe bool) (left, right []string) {
 }
 
 func runC14(c *fw.Ctx) {
+	defer c14recheckKept(c)
 	tools := newC14tools(c)
 	defer tools.close()
 	if c.Block == 0 && (tools.patchPath == "" || tools.diffPath == "") {
